@@ -63,9 +63,15 @@ copy, the signing key from the key copy -/
 theorem c16_src_signer_setup :
     Gen.Signer.signerSetup = expectedSignerSetup ∧ copiesOf Gen.Signer.signAssignments = expectedCopies := by decide
 
-/-- `load` takes the first entry without a configured key id and `GetKey` otherwise, publishes `JWK()` of every
-entry of the same store, and writes JWK and private key of the selected entry -/
+/-- `load` selects the entry with `keystore.SelectKey`, checks JOSE support of every entry and the signing usage of the
+selected entry's certificate, publishes `JWK()` of every entry of the same store, and writes JWK and private key of
+the selected entry -/
 theorem c16_src_selection : selectionOf Gen.Signer.loadAssignments = expectedSelection := by decide
+
+/-- `keystore.SelectKey` is the model's `selectEntry` (an error, not an index panic, for a store without entries) and
+`Entry.CheckJOSESupport` accepts exactly the key sizes of the algorithm tables -/
+theorem c16_src_select_key_and_support :
+    Gen.Signer.selectKey = expectedSelectKey ∧ Gen.Signer.joseSupport = expectedJoseSupport := by decide
 
 /-- `Entry.JWK` fills `Key` with `PrivateKey.Public()`; the size tables are the model's -/
 theorem c16_src_jwk_public_half :
@@ -163,11 +169,22 @@ theorem c16_token_verifies (st : State) (h : Consistent st) (i : SignIn) (custom
     verifiesFirst st.pubKeys (sign st i custom) = true := verifiesFirst_of_consistent st h i custom
 
 /-- a reload that fails (unreadable file, invalid chain, duplicate or unknown key id, certificate not usable for
-signing, unsupported key size, empty store) leaves the active generation untouched -/
+signing, unsupported key size, store without entries) leaves the active generation untouched -/
 theorem c16_failed_reload_keeps_generation (keyID : String) (st : State) (f : File) (h : loadFile keyID f = none) :
     reload keyID st f = st := by simp [reload, h]
 
 example : loadFile "nobody" (some store1) = none ∧ loadFile "" (some []) = none ∧ loadFile "" none = none := by decide
+
+/-- what `load` rejects explicitly since it no longer panics: a store without entries, and any store holding a key of
+unsupported size, whichever key is configured; by the previous theorem such a reload changes nothing -/
+theorem c16_load_rejects_unusable_stores (keyID : String) :
+    load keyID [] = none ∧
+    ∀ (raw : List RawEntry) (e : RawEntry), e ∈ raw → joseAlg e.key.pub = none → load keyID raw = none := by
+  refine ⟨?_, fun raw e he hu => load_unsupported keyID raw e he hu⟩
+  unfold load selectEntry
+  by_cases h : keyID = "" <;> simp [buildStore, h]
+
+example : joseAlg (⟨.rsa, 1024, 9⟩ : PubKey) = none ∧ joseAlg (⟨.ecdsa, 224, 9⟩ : PubKey) = none := by decide
 
 /-- after any history of key-store reloads, successful or not, every token created verifies against the key set
 published at that moment -/
